@@ -70,6 +70,7 @@ def units(tier, seed):
     us.append({'kind': 'inplace', 'tier': tier, 'seed': seed})
     us.append({'kind': 'floordiv', 'tier': tier, 'seed': seed})
     us.append({'kind': 'argwrite', 'tier': tier, 'seed': seed})
+    us.append({'kind': 'outalias', 'tier': tier, 'seed': seed})
     progs = programs(tier)
     for i in range(0, len(progs), CHUNK_P):
         us.append({'kind': 'programs', 'progs': progs[i:i + CHUNK_P], 'tier': tier, 'seed': seed})
@@ -388,7 +389,68 @@ def run_argwrite(u, out):
                         out['fails'].append({'sig': 'C14|argument-writing program|%s|second call with the same array differs' % nm, 'case': dict(case, form=form), 'detail': {}})
                         break
             Function.cgraph = None
+    # several independents: the caller's LIST of points is the caller's - same entries (identity, type, bytes) after the call,
+    # and a second call with the same list gives the same gradients
+    Function.cgraph = None
+    cg = CGraph()
+    fa, fb, fs = Function(np.array([1.0, 2.0, 3.0])), Function(np.array([[0.5, -1.0], [2.0, 4.0]])), Function(np.array(1.5))
+    y = algopy.sum(fa * fa) * algopy.sum(fb) + fs * fa[0]
+    cg.trace_off()
+    cg.independentFunctionList = [fa, fb, fs]
+    cg.dependentFunctionList = [y]
+    for form in ('arrays', 'nested lists'):
+        a0, b0, s0 = np.array([2.0, -1.0, 0.5]), np.array([[1.0, 2.0], [-3.0, 0.25]]), np.array(0.75)
+        pts = [a0, b0, s0] if form == 'arrays' else [a0.tolist(), b0.tolist(), s0]
+        keep = list(pts)
+        snaps = [np.array(p, copy=True) for p in pts]
+        out['evals'] += 1
+        out['keys'].append('listarg|' + form)
+        case = {'kind': 'argwrite', 'name': 'list of independents', 'form': form, 'driver': 'gradient'}
+        try:
+            g1 = [np.array(g, copy=True) for g in cg.gradient(pts)]
+            same_objs = len(pts) == 3 and all(p is k for p, k in zip(pts, keep)) and all(np.array_equal(np.asarray(p), sn) for p, sn in zip(pts, snaps))
+            g2 = [np.array(g, copy=True) for g in cg.gradient(pts)]
+        except Exception as ex:
+            out['fails'].append({'sig': 'C14|list of independents|gradient|raises (second call with the same list?)', 'case': case, 'detail': {'error': str(ex)[:160]}})
+            continue
+        exp = [2 * a0 * b0.sum() + np.array([float(s0), 0, 0]), np.full((2, 2), float((a0 * a0).sum())), np.array(a0[0])]
+        if not same_objs:
+            out['fails'].append({'sig': "C14|list of independents|gradient|caller's list modified", 'case': case, 'detail': {'types': [type(p).__name__ for p in pts]}})
+        elif not all(np.allclose(x1, x2) and np.allclose(x1, e) for x1, x2, e in zip(g1, g2, exp)):
+            out['fails'].append({'sig': 'C14|list of independents|gradient|value', 'case': case, 'detail': {}})
+    Function.cgraph = None
     out['samples'] = [{'argument_writing_programs': sorted(PR.ARG_WRITING)}]
+
+
+def run_outalias(u, out):
+    """UTPM.dot(x, y, out=...) - the only product with an out argument: whatever the destination (none, a fresh object, a
+    NEW object that is a view of an operand, a transposed view of an operand), the returned value is the product"""
+    rng = np.random.default_rng(5)
+    for (D, P) in [(1, 1), (3, 2)]:
+        X0 = np.round(rng.uniform(-1, 1, size=(D, P, 3, 3)) * 8) / 8.0
+        Y0 = np.round(rng.uniform(-1, 1, size=(D, P, 3, 3)) * 8) / 8.0
+        C = np.round(rng.uniform(-1, 1, size=(3, 3)) * 8) / 8.0
+        forms = [('U,U', lambda x, y: (x, y)), ('arr,U', lambda x, y: (C.copy(), y)), ('U,arr', lambda x, y: (x, C.copy()))]
+        for fname, mk in forms:
+            a, b = mk(UTPM(X0.copy()), UTPM(Y0.copy()))
+            ref = UTPM.dot(a, b).data.copy()
+            dests = [('fresh', lambda x, y: UTPM(np.full(ref.shape, 7.0))), ('the operand x', lambda x, y: x), ('view of x', lambda x, y: UTPM(x.data)),
+                     ('view of y', lambda x, y: UTPM(y.data)), ('transposed view of x', lambda x, y: x.T), ('x[...]', lambda x, y: x[...])]
+            for dname, mkd in dests:
+                x, y = UTPM(X0.copy()), UTPM(Y0.copy())
+                a, b = mk(x, y)
+                if ('x' in dname and not isinstance(a, UTPM)) or ('y' in dname and not isinstance(b, UTPM)):
+                    continue
+                out['evals'] += 1
+                out['keys'].append('outalias|%s|%s|%d' % (fname, dname, D))
+                case = {'kind': 'outalias', 'form': fname, 'out': dname, 'D': D, 'P': P}
+                try:
+                    r = UTPM.dot(a, b, out=mkd(x, y))
+                except Exception as ex:
+                    out['fails'].append({'sig': 'C14|dot out=|%s|raises' % dname, 'case': case, 'detail': {'error': str(ex)[:160]}})
+                    continue
+                if not isinstance(r, UTPM) or r.data.shape != ref.shape or not np.allclose(r.data, ref, rtol=1e-13, atol=1e-14):
+                    out['fails'].append({'sig': 'C14|dot out=|destination %s|returned value is not the product' % dname, 'case': case, 'detail': {}})
 
 
 def run_unit(u):
@@ -406,6 +468,8 @@ def run_unit(u):
         run_floordiv(u, out)
     elif u['kind'] == 'argwrite':
         run_argwrite(u, out)
+    elif u['kind'] == 'outalias':
+        run_outalias(u, out)
     elif u['kind'] == 'inplace':
         o2 = {'evals': 0, 'nontrivial': 0, 'fails': [], 'samples': [], 'counters': {}}
         C02.run_alias({'tier': u['tier']}, o2)
@@ -430,6 +494,9 @@ def replay(case):
         return [f for f in out['fails'] if f['case']['op'] == case['op'] and f['case']['D'] == case['D'] and f['case']['P'] == case['P']]
     if case['kind'] == 'inplace':
         return C02.replay(dict(case, kind='alias'))
+    if case['kind'] == 'outalias':
+        run_outalias({}, out)
+        return [f for f in out['fails'] if all(f['case'].get(k) == case.get(k) for k in ('form', 'out', 'D', 'P'))]
     if case['kind'] == 'argwrite':
         run_argwrite({'seed': case.get('seed', 0)}, out)
         return [f for f in out['fails'] if all(f['case'].get(k) == case.get(k) for k in ('name', 'reckind', 'driver', 'form'))]
